@@ -1989,6 +1989,11 @@ func (interp *Interpreter) cfg(root *node, sc *scope, importPath, pkgName string
 				if c.typ.cat == nilT {
 					// nil: Set node value to zero of return type
 					c.rval = reflect.New(typ.TypeOf()).Elem()
+				} else if rt := typ.TypeOf(); c.typ.untyped && isNumber(rt) {
+					// An untyped constant operand must be representable in the result type.
+					if err = check.representable(c, rt); err != nil {
+						return
+					}
 				}
 			}
 
